@@ -33,7 +33,7 @@ Proof.
   - destruct (p x), (p y); try apply Permutation_refl. constructor.
 Qed.
 
-Definition is_failure (r : fres) : Prop := match r with FErr _ | FPanic => True | _ => False end.
+Definition is_failure (r : exres) : Prop := match r with FErr _ | FPanic => True | _ => False end.
 
 Theorem c14_filter_order_free (ev : evaluator) t n ka kb : kind_of_type t = KMap -> Permutation ka kb ->
   (exists ya yb, execute (Some ev) (Some (t, VMap n ka)) = FMap t ya /\ execute (Some ev) (Some (t, VMap n kb)) = FMap t yb /\ Permutation ya yb)
